@@ -216,6 +216,10 @@ class Spec:
                     # out-of-range start: the statement's IndexError + unchanged state
                     evs.append([f"add_{axis}", d, s, t, 1, size, None])
                     evs.append([f"del_{axis}", d, s, t, 1, size])
+                    # more than exists after the start index: refused (state unchanged) or clamped - never half-applied
+                    if size >= 2:
+                        evs.append([f"del_{axis}", d, s, t, 2, size - 1])
+                    evs.append([f"del_{axis}", d, s, t, size + 1, None])
                     if full:
                         evs.append([f"add_{axis}", d, s, t, 1, -1, None])
                 if not mini:
@@ -281,7 +285,21 @@ class Spec:
                 size = rt.nr if kind == "del_row" else rt.nc
                 if start is not None and not (0 <= start < size):
                     expect_exc = IndexError
-                if kind == "del_row":
+                avail = size - (start or 0)
+                over = expect_exc is None and n > avail
+                if over:
+                    # the statement does not say whether such a call is refused or clamped; either way the
+                    # table must stay a grid: refused -> unchanged, accepted -> exactly the existing rows removed
+                    try:
+                        (tab.delete_row if kind == "del_row" else tab.delete_column)(n, start)
+                    except IndexError:
+                        outcome = "IndexError-over"
+                    else:
+                        outcome = "clamped"
+                        if start is None:
+                            start = 0
+                        (rt.delete_rows if kind == "del_row" else rt.delete_cols)(start, avail)
+                elif kind == "del_row":
                     tab.delete_row(n, start)
                     rt.delete_rows(start, n)
                 else:
